@@ -457,11 +457,28 @@ def q_forall(vs, guard, body, pats=None):
             insts.append(inst)
         return z3.simplify(z3.And(*insts))
     if pats:
-        try:
-            return z3.ForAll(vs, f, patterns=pats)
-        except z3.Z3Exception:
-            pass
+        good = [p_ for p_ in pats if _pattern_ok(p_, vs)]
+        if good:
+            try:
+                return z3.ForAll(vs, f, patterns=good)
+            except z3.Z3Exception:
+                pass
     return z3.ForAll(vs, f)
+
+
+def _pattern_ok(p, vs):
+    """a usable E-matching pattern: an uninterpreted function application (no ite / arithmetic at the root) mentioning every bound var"""
+    try:
+        if isinstance(p, z3.PatternRef):
+            return True
+        if not z3.is_app(p) or p.decl().kind() != z3.Z3_OP_UNINTERPRETED or p.num_args() == 0:
+            return False
+        txt = p.sexpr()
+        if "(ite " in txt:
+            return False
+        return all(_mentions(p, v) for v in vs)
+    except z3.Z3Exception:
+        return False
 
 
 def q_exists(vs, guard, body):
@@ -560,6 +577,8 @@ def arith(op, a, b, ctx=None, path=None, line=None):
         return PyList(a.items, b, a.is_tuple)
     if isinstance(op, ast.Mult) and isinstance(a, PyList) and isinstance(b, int):
         return PyList(a.items * b, None, a.is_tuple)
+    if isinstance(op, ast.Mult) and isinstance(a, PyList) and a.tail is None and len(a.items) == 1 and is_z3(b):
+        return SymSeq(b, lambda k, v=a.items[0]: v)      # [v] * n
     if isinstance(op, ast.Add) and isinstance(a, str) and isinstance(b, str):
         return a + b
     if not (is_num(a) or is_bool(a)) or not (is_num(b) or is_bool(b)):
@@ -685,6 +704,20 @@ def compare(op, a, b):
             return r if isinstance(op, ast.Is) else b_not(r)
         r = val_eq(a, b)
         return r if isinstance(op, ast.Is) else b_not(r)
+    if isinstance(op, (ast.Eq, ast.NotEq)) and (isinstance(a, Arr) or isinstance(b, Arr)) and not (isinstance(a, Arr) and isinstance(b, Arr) and a is b):
+        A_ = a if isinstance(a, Arr) else None
+        B_ = b if isinstance(b, Arr) else None
+        ref = A_ or B_
+        if (A_ is None and not (is_num(a) or is_bool(a))) or (B_ is None and not (is_num(b) or is_bool(b))):
+            return isinstance(op, ast.NotEq)
+
+        def at_eq(*k, A_=A_, B_=B_, a=a, b=b, neq=isinstance(op, ast.NotEq)):
+            e = val_eq(A_.at(*k) if A_ else a, B_.at(*k) if B_ else b)
+            e = to_z3(e)
+            return z3.Not(e) if neq else e
+        r = Arr(ref.shape, at_eq, "bool")
+        r.facts = list(getattr(A_, "facts", []) if A_ else []) + list(getattr(B_, "facts", []) if B_ else [])
+        return r
     if isinstance(op, ast.Eq):
         return val_eq(a, b)
     if isinstance(op, ast.NotEq):
